@@ -52,9 +52,9 @@ def run_all ():
   # try/except containment
   g = CFG(_fn("def f(s):\n  try:\n    s.cb()\n  except:\n    log()\n  return 1\n"))
   n = _node(g, 's.cb()')
-  expect('try catch-all', g.raise_exit not in g.reachable(n))
+  expect('try catch-all', not g.raises_out(n))
   g = CFG(_fn("def f(s):\n  try:\n    s.cb()\n  except ValueError:\n    log()\n  return 1\n"))
-  expect('try narrow', g.raise_exit in g.reachable(_node(g, 's.cb()')))
+  expect('try narrow', g.raises_out(_node(g, 's.cb()')))
   # loops: break/continue and while True
   g = CFG(_fn("def f(s):\n  while True:\n    x = s.get()\n    if x is None: break\n    s.use(x)\n  s.done()\n"))
   expect('while-true exit via break', _node(g, 's.done()') in g.reachable(g.entry))
